@@ -548,4 +548,19 @@ Section YamlProofs.
     intro Hsf. apply yaml_cache_transparent_gen with (past := []); [|exact Hsf].
     split; [right; reflexivity|intros x []].
   Qed.
+  (* the file list that enters the cache key covers ALL files loaded in the
+     session with the digests of their current contents, hot hits included *)
+  Lemma y_files_plain : forall evs cur acc,
+    y_files data evs (y_plain data parse H cur evs) acc = y_session H evs acc.
+  Proof.
+    induction evs as [|ev q IH]; intros cur acc; [reflexivity|].
+    destruct ev as [vsn|name stat content]; cbn [y_plain y_files y_session]; apply IH.
+  Qed.
+
+  Lemma files_cover_all_loads_proof evs cur :
+    stat_faithful (y_loads evs) ->
+    y_files data evs (y_run data parse H cur (yempty data) evs) [] = y_session H evs [].
+  Proof.
+    intro Hsf. rewrite (yaml_cache_transparent_proof evs cur Hsf). apply y_files_plain.
+  Qed.
 End YamlProofs.
